@@ -29,6 +29,11 @@ func TestVerifSys(t *testing.T) {
 	for i := 0; i < n; i++ {
 		run(Random(r.Rng, true))
 	}
+	// scripted, mostly successful lifecycles (rollout, pause cycle, handover, archival / deletion), perturbed
+	n = r.Pick(1500, 20000)
+	for i := 0; i < n; i++ {
+		run(Scripted(r.Rng, i%2 == 1))
+	}
 	// histories with delegated phases and the real same-cluster ObjectSetPhase controller
 	n = r.Pick(2000, 30000)
 	for i := 0; i < n; i++ {
